@@ -392,9 +392,16 @@ def check_c01(exe, tier, seed, verdict):
     samples = [{"tree": tree_text({"main": x["main"], "drop": x["drop"], "shp": x["shp"]}), "expect": x["rc"], "result": show_ents(x["exp"]["ents"])}
                for x in recs[7000:7002]]
     # other content shapes and the whole name pool (names without the suffix, dot file): bounded number of drop-ins
-    r2, recs2, total2 = tree_export(3, [1, 2, 3, 4, 5, 6, 7, 8, 9, 10, 11], 2 if tier == "quick" else 3, shapes)
+    r2, recs2, total2 = tree_export(3, [1, 2, 3, 4, 5, 6, 7, 8, 9, 10, 11], 2, shapes)
     if r2.violated:
         verdict.violation("C01:model", {"tlc": r2.out[-3000:]}, "TLC: Read(tree) differs from UapiRef(tree)\n" + r2.out[-1500:])
+    if tier == "thorough":
+        # (three drop-ins per tree over the nine-name pool; with all eleven names the export no longer fits into memory)
+        r2b, recs2b, total2b = tree_export(3, [1, 2, 3, 4, 5, 6, 7, 8, 9], 3, shapes)
+        if r2b.violated:
+            verdict.violation("C01:model", {"tlc": r2b.out[-3000:]}, "TLC: Read(tree) differs from UapiRef(tree)\n" + r2b.out[-1500:])
+        recs2 = recs2 + recs2b
+        total2 += total2b
     if tier == "quick":
         recs2 = rnd.sample(recs2, min(len(recs2), 12000))
     n += replay_trees(exe, recs2, Shape("std"), verdict, "C01")
